@@ -161,6 +161,10 @@ class C19(Case):
                         q = an(set_of([x, e])) if sp.get("with_parent") else an(entity(e))
                     elif k == "flatten_cmp":
                         raise NotImplementedError
+                    elif k == "or_contains":   # the false row of a membership test in an empty container must still reach the other disjunct
+                        q = an(entity(x, contains(x.c, ve) | (x.n > 0)))
+                    elif k == "or_and_contains":
+                        q = an(entity(x, and_(contains(x.c, ve), x.n > 5) | (x.n > 0)))
                     elif k == "chain":      # a chain of mappings in condition position: only the OUTERMOST value is a truth value
                         q = an(entity(x, x.nm.isdigit()))
                     elif k == "chain_not":
@@ -258,6 +262,10 @@ class C19(Case):
                 return pred_term(alg, o.c, lambda c: sp["item"] in c)
             if k == "contains_attr":
                 return pred2_term(alg, o.c, o.v, lambda c, a: a in c)
+            if k == "or_contains":
+                return alg.or_(pred2_term(alg, o.c, o.v, lambda c, a: a in c), alg.cmp("gt", o.n, 0))
+            if k == "or_and_contains":
+                return alg.or_(alg.and_(pred2_term(alg, o.c, o.v, lambda c, a: a in c), alg.cmp("gt", o.n, 5)), alg.cmp("gt", o.n, 0))
             if k == "chain":
                 return pred_term(alg, o.nm, lambda a: a.isdigit())
             if k == "chain_not":
@@ -275,7 +283,8 @@ class C19(Case):
             raise ValueError(k)
 
         if k in ("cmp_lit", "cmp_attr", "int_cmp", "in_lit", "not_in_lit", "contains_lit", "contains_attr", "kw",
-                 "cond_position", "not_cond_position", "chain", "chain_not", "chain_and", "chain_args", "chain_or"):
+                 "cond_position", "not_cond_position", "chain", "chain_not", "chain_and", "chain_args", "chain_or",
+                 "or_contains", "or_and_contains"):
             idx = [self._idx(r, objs) for r in res]
             obs.append(("members_in_order", alg.const(all(i >= 0 for i in idx) and all(p < q for p, q in zip(idx, idx[1:])))))
             for i, o in enumerate(objs):
@@ -362,6 +371,9 @@ def shapes(tier, seed):
         out.append(dict(kind="cmp_lit", op="eq", lit=li, side="r", access="attr", n=2, concrete=True))
     for kk in ("chain", "chain_not", "chain_and", "chain_args", "chain_or"):
         out.append(dict(kind=kk, n=n))
+    for kk in ("or_contains", "or_and_contains"):
+        out.append(dict(kind=kk, access="attr", n=n))
+        out.append(dict(kind=kk, access="attr", n=2, concrete=True))
     out.append(dict(kind="cmp_cross", op="eq", n=2))
     out.append(dict(kind="cmp_cross", op="ne", n=2))
     for item in (0, 1, ""):
